@@ -54,8 +54,26 @@ fn run_cmd(cmd: u8, src: &mut Src, obs: &mut Obs) -> CaseResult {
                "model": refcbor::diag(&model)})
     });
     obs.case_with(|| case_json(cmd, &msg, &model));
-    check_message(cmd, &model, &msg).map_err(|(sig, m)| Fail::new(sig, m, case_json(cmd, &msg, &model)))
+    check_message(cmd, &model, &msg)
+        .map_err(|(sig, m)| Fail::new(sig, m, case_json(cmd, &msg, &model)).with_concrete("c01_concrete", msg.clone()))
 }
+
+/// generator-independent replay: payload = the request message itself; the model is
+/// recovered with the reference parser
+fn g_concrete(src: &mut Src, obs: &mut Obs) -> CaseResult {
+    let msg = crate::run::unpack_bytes(src);
+    obs.label("concrete");
+    if msg.is_empty() {
+        return Ok(());
+    }
+    let cmd = msg[0];
+    let model = refcbor::parse_strict(&msg[1..])
+        .map_err(|e| Fail::new("C01:harness:concrete-not-cbor", e.0, json!({"input_hex": hex(&msg)})))?;
+    obs.case_with(|| case_json(cmd, &msg, &model));
+    check_message(cmd, &model, &msg)
+        .map_err(|(sig, m)| Fail::new(sig, m, case_json(cmd, &msg, &model)).with_concrete("c01_concrete", msg.clone()))
+}
+pub const G_CONCRETE: Gen = Gen { name: "c01_concrete", f: g_concrete };
 
 fn g_mc(s: &mut Src, o: &mut Obs) -> CaseResult {
     run_cmd(CMD_MC, s, o)
@@ -134,7 +152,7 @@ pub const G_LB: Gen = Gen { name: "c01_lb", f: g_lb };
 pub const G_NESTED: Gen = Gen { name: "c01_nested", f: g_nested };
 
 pub fn gens() -> Vec<Gen> {
-    vec![G_MC, G_GA, G_CP, G_CM, G_CM41, G_LB, G_NESTED]
+    vec![G_MC, G_GA, G_CP, G_CM, G_CM41, G_LB, G_NESTED, G_CONCRETE]
 }
 
 /// arity of each nested presence word (2 = bool, 3 = three-way)
